@@ -28,7 +28,8 @@ Definition filter := list header -> header -> bool * bool.
 
 Inductive hev :=
 | HMade (slot : nat)                                   (* MakeHandler returned this id *)
-| HMsg (m : msg) (matched keep delivered : bool)       (* dispatch consulted the filter for m *)
+| HMsg (m : msg) (matched keep room : bool)            (* dispatch consulted the filter for m; room: len(queue) < cap(queue)
+                                                          at that moment; the message was enqueued iff matched && room *)
 | HCloser (e : cerr)                                   (* closer(e) was called *)
 | HQClose.                                             (* close(queue) *)
 
@@ -114,7 +115,7 @@ Definition disp_one (m : msg) (h : handler) (ret : dres) : d1res :=
   let h1 := if delivered then set_buf h (h_buf h ++ [m]) else h in
   let ret1 := if matched then (if room then match ret with DNoMatch => DNil | r => r end else DBlocked) else ret in
   let reply := if matched && negb room && N.eqb (h_type (m_header m)) T_Call then [error_reply m] else [] in
-  let h2 := add_log (HMsg m matched keep delivered) h1 in
+  let h2 := add_log (HMsg m matched keep room) h1 in
   if keep then D1Ok h2 true reply ret1
   else match close_with true CNil h2 with
        | HOk h3 => D1Ok h3 false reply ret1
@@ -341,12 +342,49 @@ Fixpoint queue_closes (l : list hev) : nat :=
   match l with [] => 0 | HQClose :: r => S (queue_closes r) | _ :: r => queue_closes r end.
 (* messages put into the queue, oldest first *)
 Fixpoint enqueued_rev (l : list hev) : list msg :=
-  match l with [] => [] | HMsg m _ _ true :: r => m :: enqueued_rev r | _ :: r => enqueued_rev r end.
+  match l with [] => [] | HMsg m true _ true :: r => m :: enqueued_rev r | _ :: r => enqueued_rev r end.
 Definition enqueued (h : handler) : list msg := rev (enqueued_rev (h_log h)).
 (* messages the filter was consulted for, oldest first *)
 Fixpoint consulted_rev (l : list hev) : list msg :=
   match l with [] => [] | HMsg m _ _ _ :: r => m :: consulted_rev r | _ :: r => consulted_rev r end.
 Definition consulted (h : handler) : list msg := rev (consulted_rev (h_log h)).
+
+(* (message, room) for every consultation of the filter, oldest first *)
+Fixpoint events_rev (l : list hev) : list (msg * bool) :=
+  match l with [] => [] | HMsg m _ _ room :: r => (m, room) :: events_rev r | _ :: r => events_rev r end.
+Definition events (h : handler) : list (msg * bool) := rev (events_rev (h_log h)).
+
+(* what a filter selects from a sequence of messages, given whether the queue had room for each:
+   the filter is shown every message, in order, with the headers it was shown before *)
+Fixpoint expect (f : filter) (seen : list header) (evs : list (msg * bool)) : list msg :=
+  match evs with
+  | [] => []
+  | (m, room) :: r => (if fst (f seen (m_header m)) && room then [m] else []) ++ expect f (m_header m :: seen) r
+  end.
+
+(* the handler is in the table *)
+Definition registered (s : state) (hid : nat) : bool := existsb (Nat.eqb hid) (slot_hids (st_slots s)).
+
+(* the messages dispatched while handler hid was in the table, along a run from s *)
+Fixpoint window_from (s : state) (ls : list label) (hid : nat) : list msg :=
+  match ls with
+  | [] => []
+  | l :: r =>
+      match step s l with
+      | Run s' _ =>
+          (match l with LDispatch m => if registered s hid then [m] else [] | _ => [] end) ++ window_from s' r hid
+      | _ => []
+      end
+  end.
+Definition window (ls : list label) (hid : nat) : list msg := window_from init ls hid.
+
+(* the documented contract on callbacks: they do not call back into the endpoint *)
+Definition contract_label (l : label) : Prop :=
+  match l with LMake _ fre cl _ => fre = false /\ cl <> Some true | _ => True end.
+
+(* handlers made by a label sequence *)
+Fixpoint made_count (ls : list label) : nat :=
+  match ls with [] => 0 | LMake _ _ _ _ :: r => S (made_count r) | _ :: r => made_count r end.
 
 (* ---------- C10 (b): concurrent senders on one stream ----------
    Sender i owns the list of messages it still has to send; one step of the system is
